@@ -100,6 +100,7 @@ use noisy_float::types::N32;
 #[kani::proof]
 fn complete_notnan_option_i32() {
     let v: Option<i32> = kani::any();
+    assert!(<Option<i32> as MaybeNan>::is_nan(&v) == v.is_none());
     match v.try_as_not_nan() {
         None => assert!(v.is_none() && v.is_nan()),
         Some(nn) => {
@@ -127,6 +128,8 @@ fn complete_notnan_option_u8() {
 #[kani::proof]
 fn complete_notnan_f64() {
     let x: f64 = kani::any();
+    // the crate's "is missing" predicate is exactly IEEE NaN (infinities are values)
+    assert!(<f64 as MaybeNan>::is_nan(&x) == (x != x));
     match x.try_as_not_nan() {
         None => assert!(x.is_nan()),
         Some(n) => { assert!(!x.is_nan()); assert!(n.raw().to_bits() == x.to_bits()); assert!(f64::from_not_nan(*n).to_bits() == x.to_bits()); }
@@ -137,6 +140,7 @@ fn complete_notnan_f64() {
 #[kani::proof]
 fn complete_notnan_f32() {
     let x: f32 = kani::any();
+    assert!(<f32 as MaybeNan>::is_nan(&x) == (x != x));
     match x.try_as_not_nan() {
         None => assert!(x.is_nan()),
         Some(n) => { assert!(!x.is_nan()); let n: &N32 = n; assert!(n.raw().to_bits() == x.to_bits()); }
